@@ -1,6 +1,7 @@
 package pump
 
 import (
+	"verif/harness/ev"
 	"fmt"
 	"math/rand"
 	"strconv"
@@ -220,6 +221,37 @@ func StrategyByName(name string) (Strategy, error) {
 				return d[0]
 			}
 			return en[0]
+		}, nil
+	case "devduplate":
+		// as devdup, but the second copy of a message of party <arg> is handed over only AFTER the recipient has left
+		// the round that awaits it and before it has finished (a late duplicate: the stored copy is replaced although the
+		// recipient has already checked and used the first one)
+		return func(s *Session, en []Step, _ *rand.Rand) Step {
+			if st, ok := firstStart(en); ok {
+				return st
+			}
+			ds := deliveries(en)
+			for _, d := range ds {
+				if it := s.item(d.Item); it.From.G == arg && it.Count == 0 {
+					d.Op = "dup"
+					return d
+				}
+			}
+			for _, d := range ds {
+				it := s.item(d.Item)
+				if it.From.G != arg || it.Count == 0 {
+					continue
+				}
+				if r := s.Round(it.To); r > it.Round && r != ev.Done && len(it.To.Results) == 0 {
+					return d
+				}
+			}
+			for _, d := range ds {
+				if it := s.item(d.Item); it.From.G != arg {
+					return d
+				}
+			}
+			return ds[0]
 		}, nil
 	case "devdup":
 		// Party <arg> is the fastest one (its inbox is served first, its messages are delivered as soon as they exist)
